@@ -245,6 +245,14 @@ theorem single_identity (m : Mode) (s : Shape) (p : APart) (h : iterParts s = [p
     merge m s = some (.same p) := by
   simp [merge, h, mergeParts]
 
+/-- ... also when that one part is reachable more than once (listed twice; on its own and inside its group):
+what counts is the number of different Part objects (fixes/C15-11) -/
+theorem single_identity_distinct (m : Mode) (s : Shape) (p : APart) (h : distinctParts (iterParts s) = [p]) :
+    merge m s = some (.same p) := by
+  simp [merge, h, mergeParts]
+
+example : distinctParts (iterParts (.many [.part exA, .group [.part exA, .group [.part exA]]])) = [exA] := by decide
+
 -- ================================================================ sounding notes
 
 /-- The sounding rows (onset, tied duration, pitch) of the merged part are, as a multiset, the rows of the
